@@ -380,14 +380,14 @@ Proof.
   destruct (depth_ok true w 0); [reflexivity|contradiction].
 Qed.
 
-(* C13 / C08, protected bucket: what ProtectedHeader.MarshalCBOR emits, ProtectedHeader.UnmarshalCBOR accepts,
-   and the decoded bucket has the same parameters *)
-Theorem protected_roundtrip l pb :
+(* tree level: the protected item the encoder emits decodes (dec_protected is what every message decoder calls) *)
+Lemma dec_protected_of_enc l pb :
   l <> [] -> simple (GMap l) = true -> (forall k v, entry_in k v l -> okval v) ->
   enc_protected (Some l) = Acc pb ->
   (forall m, enc_hmap l = Acc m -> within_limits m) ->
-  exists m dl, enc_hmap l = Acc m /\ pb = enc_bstr m /\
-               unmarshal_protected pb = Acc (cast_alg dl) /\ hrel l dl /\ validate_params dl true = true.
+  exists m dl, enc_hmap l = Acc m /\ pb = ser (tbstr m) /\ short m /\ m <> [] /\
+               dec_protected (tbstr m) = Acc (cast_alg dl) /\ hrel l dl /\ validate_params dl true = true /\
+               validate_params l true = true.
 Proof.
   intros Hne Hs Hok He Hlim. unfold enc_protected in He. destruct l as [|x0 l0]; [contradiction|].
   set (l := x0 :: l0) in *.
@@ -399,17 +399,32 @@ Proof.
   destruct Hn as [ks Hn].
   pose proof (hrel_from_tree l dl lp ks Hs Hn Plp Rl Evn Kd) as HR.
   pose proof (validate_params_transport l dl true HR Hok V) as V'.
-  exists (ser (WMap ww tl)), dl. split; [reflexivity|]. split; [reflexivity|]. split; [|auto].
-  unfold unmarshal_protected. rewrite enc_bstr_ser.
   destruct (map_first_byte ww tl W) as (a & rest & Ea & Ha).
   assert (Sm : short (ser (WMap ww tl))).
   { split; [apply ser_ok; exact W|]. destruct (Hlim _ eq_refl) as [_ Hl]. exact Hl. }
-  assert (Wb : wf (tbstr (ser (WMap ww tl))) = true) by (apply tbstr_wf; exact Sm).
-  destruct (ser (tbstr (ser (WMap ww tl)))) as [|b0 bs] eqn:Eb; [apply (f_equal (@length Z)) in Eb; cbn in Eb; rewrite app_length in Eb; cbn in Eb; lia|].
-  rewrite <- Eb. unfold lib_wf. rewrite parse_full_ser by exact Wb. cbn [depth_ok tbstr].
+  exists (ser (WMap ww tl)), dl. split; [reflexivity|]. split; [apply enc_bstr_ser|]. split; [exact Sm|].
+  split; [rewrite Ea; discriminate|]. split; [|auto].
   unfold tbstr. rewrite Ea. cbn [dec_protected]. rewrite Ha. cbn [Z.eqb Pos.eqb negb]. rewrite <- Ea.
   rewrite (lib_wf_of_ser _ W (Hlim _ eq_refl)). rewrite LP. cbn [bind]. rewrite Nd. cbn [negb].
   rewrite VP. cbn [bind]. rewrite (zip_keys_vals dl Evn), V'. reflexivity.
+Qed.
+
+(* C13 / C08, protected bucket: what ProtectedHeader.MarshalCBOR emits, ProtectedHeader.UnmarshalCBOR accepts,
+   and the decoded bucket has the same parameters *)
+Theorem protected_roundtrip l pb :
+  l <> [] -> simple (GMap l) = true -> (forall k v, entry_in k v l -> okval v) ->
+  enc_protected (Some l) = Acc pb ->
+  (forall m, enc_hmap l = Acc m -> within_limits m) ->
+  exists m dl, enc_hmap l = Acc m /\ pb = enc_bstr m /\
+               unmarshal_protected pb = Acc (cast_alg dl) /\ hrel l dl /\ validate_params dl true = true.
+Proof.
+  intros Hne Hs Hok He Hlim.
+  destruct (dec_protected_of_enc l pb Hne Hs Hok He Hlim) as (m & dl & Em & -> & Sm & Mne & D & HR & V' & _).
+  exists m, dl. split; [exact Em|]. split; [symmetry; apply enc_bstr_ser|]. split; [|auto].
+  unfold unmarshal_protected.
+  assert (Wb : wf (tbstr m) = true) by (apply tbstr_wf; exact Sm).
+  destruct (ser (tbstr m)) as [|b0 bs] eqn:Eb; [pose proof (ser_nonempty (tbstr m)) as Hn; rewrite Eb in Hn; cbn in Hn; lia|].
+  rewrite <- Eb. unfold lib_wf. rewrite parse_full_ser by exact Wb. cbn [depth_ok tbstr]. exact D.
 Qed.
 
 (* ---------- unprotected bucket ---------- *)
@@ -452,11 +467,13 @@ Proof.
     inversion H; subst. cbn [npairs length]. f_equal. apply IH. reflexivity.
 Qed.
 
-(* C13 / C08, unprotected bucket *)
-Theorem unprotected_roundtrip l ub :
+(* tree level *)
+Lemma dec_unprotected_of_enc l ub fuel :
   l <> [] -> simple (GMap l) = true -> (forall k v, entry_in k v l -> okval v) ->
   enc_unprotected (Some l) = Acc ub -> within_limits ub ->
-  exists dl, unmarshal_unprotected ub = Acc dl /\ hrel l dl /\ validate_params dl false = true.
+  exists w dl, ub = ser w /\ wf w = true /\ notags w = true /\ (exists ww tl, w = WMap ww tl) /\
+               dec_unprotected (S fuel) w = Acc dl /\ hrel l dl /\ validate_params dl false = true /\
+               validate_params l false = true.
 Proof.
   intros Hne Hs Hok He Hlim. unfold enc_unprotected in He. destruct l as [|x0 l0]; [contradiction|].
   set (l := x0 :: l0) in *.
@@ -468,10 +485,10 @@ Proof.
   pose proof (hrel_from_tree l dl lp ks Hs Hn Plp Rl Evn Kd) as HR.
   pose proof (validate_params_transport l dl false HR Hok V) as V'.
   pose proof (no_cs_labels l dl HR Hok V) as NC.
-  exists dl. split; [|auto].
-  unfold unmarshal_unprotected. destruct (map_first_byte ww tl W) as (a & rest & Ea & Ha).
-  rewrite Ea. rewrite Ha. cbn [Z.eqb Pos.eqb negb]. rewrite <- Ea.
-  rewrite (lib_wf_of_ser _ W Hlim). unfold csig_fuel. change 20%nat with (S 19). generalize 19%nat. intros fuel. cbn [dec_unprotected]. rewrite LP. cbn [bind]. rewrite Nd. cbn [negb].
+  exists (WMap ww tl), dl. split; [reflexivity|]. split; [exact W|].
+  split; [cbn [notags]; clear -Nl; induction tl as [|w tl IH]; [reflexivity|]; cbn [forallb] in Nl; apply andb_true_iff in Nl as [A B]; rewrite A; apply IH; exact B|].
+  split; [eauto|]. split; [|auto].
+  cbn [dec_unprotected]. rewrite LP. cbn [bind]. rewrite Nd. cbn [negb].
   match goal with |- (let* vs := ?G tl (gkeys dl) in _) = _ =>
     assert (EG : forall t ks0, length ks0 = npairs t -> (forall k', In k' ks0 -> is_cs_label k' = false) -> G t ks0 = values_pass t) end.
   { intros t. induction t as [| |k v r IH] using pair_ind; intros ks0 HL Hc.
@@ -483,6 +500,20 @@ Proof.
         (rewrite IH; [reflexivity|cbn in HL; lia|intros k' Hk'; apply Hc; right; exact Hk']). }
   rewrite EG; [|apply labels_pass_length; exact LP|exact NC].
   rewrite VP. cbn [bind]. rewrite (zip_keys_vals dl Evn), V'. reflexivity.
+Qed.
+
+(* C13 / C08, unprotected bucket *)
+Theorem unprotected_roundtrip l ub :
+  l <> [] -> simple (GMap l) = true -> (forall k v, entry_in k v l -> okval v) ->
+  enc_unprotected (Some l) = Acc ub -> within_limits ub ->
+  exists dl, unmarshal_unprotected ub = Acc dl /\ hrel l dl /\ validate_params dl false = true.
+Proof.
+  intros Hne Hs Hok He Hlim.
+  destruct (dec_unprotected_of_enc l ub 19 Hne Hs Hok He Hlim) as (w & dl & -> & W & _ & (ww & tl & ->) & D & HR & V' & _).
+  exists dl. split; [|auto].
+  unfold unmarshal_unprotected. destruct (map_first_byte ww tl W) as (a & rest & Ea & Ha).
+  rewrite Ea. rewrite Ha. cbn [Z.eqb Pos.eqb negb]. rewrite <- Ea.
+  rewrite (lib_wf_of_ser _ W Hlim). exact D.
 Qed.
 
 (* the premises are satisfiable: {1: ES256, 4: h'0102', 2: [4]} with labels spelled by three Go integer kinds *)
